@@ -498,7 +498,7 @@ func coqfile(args []string) {
 	var f *ach.File
 	switch *sec {
 	case "MIX":
-		f = gen.File(r, gen.Opts{SECs: []string{ach.PPD, ach.CCD}, Returns: true, NOC: true, Addenda: true, IAT: true, MinBatches: 3, MaxBatches: 4, MaxEntries: 2})
+		f = gen.File(r, gen.Opts{SECs: []string{ach.PPD, ach.CCD, ach.WEB}, Returns: true, NOC: true, Addenda: true, MinBatches: 2, MaxBatches: 2, MaxEntries: 2})
 	default:
 		f = gen.FileOfSEC(r, *sec, gen.Opts{Addenda: true, Returns: true, MinBatches: 2, MaxBatches: 2, MaxEntries: 2})
 	}
